@@ -127,8 +127,8 @@ PROPS = {
         'targets': ['Corr/Dispatch.vo', 'Proto/Run.vo'],
     },
     'C12': {
-        'level_text': 'Theorems for all received values and states: the responder (message 3) and the initiator (message 4) report success only after every range check, both zero-knowledge proofs and the final comparison evaluated to true; no other message yields success. Refuted for version 2 (no range checks; known finding). Every run: systematic plan - every message with 1, 2, 3 and all values dropped, every field x boundary classes (0, 1, p-1, p, p+1, q, random, +1) - plus random deviations, user calls in unexpected states, v2/v3, compared with the symbolic model; recovery oracle; the numeric range check vs the code.',
-        'level_note': 'absence of panics under v3 and recovery are checked by correspondence + oracle (the model returns a panic outcome where ModInverse would return nil), not yet by theorem.',
+        'level_text': 'Theorems for all received values and states: the responder (message 3) and the initiator (message 4) report success only after every range check, both zero-knowledge proofs and the final comparison evaluated to true; no other message yields success; C12_never_panics_v3 - for EVERY history of user calls and received SMP messages of any content under version 3 no step reaches a panic of the code (nil ModInverse / missing state record; invariant: each state holds the records its handler reads and the stored divisors are not 0); C12_can_always_restart - whatever the state, the next start by the user goes through. Refuted for version 2 (no range checks; known finding). Every run: systematic plan - every message with 1, 2, 3 and all values dropped, every field x boundary classes (0, 1, p-1, p, p+1, q, random, +1) - plus random deviations, user calls in unexpected states, v2/v3, compared with the symbolic model; recovery oracle; the numeric range check vs the code.',
+        'level_note': 'the no-panic theorem is about the SMP machine of the model (where the code would panic the model says so); that the model says so in the same places as the code is the correspondence.',
         'trusted': ['the conversation model is symbolic: DH values are exponent ids, shared secrets unordered pairs, keys (secret, role) terms, a MAC verifies iff it was computed with the same key over the same fields (perfect-cryptography idealisation)', 'internal projections (key ids, list lengths, state names) are read through the verif-tagged hook VerifSnapshot'],
         'assumptions': ['generic-group idealisation for values of unknown discrete logarithm (a tainted value never satisfies an equation)'],
         'targets': ['Corr/Dispatch.vo', 'Proto/Run.vo'],
